@@ -34,12 +34,14 @@ import (
 
 // Case is a replayable case.
 type Case struct {
-	Kind string `json:"kind"` // split-span | split-pagenr | split-bookmarks | merge-create | merge-append | merge-append-new | merge-zip
+	Kind string `json:"kind"` // split-span | split-pagenr | split-bookmarks | split-raw | merge-create | merge-append | merge-append-new | merge-zip
 	// split
 	Doc     int   `json:"doc,omitempty"`   // generator index
 	Pages   int   `json:"pages,omitempty"` // page count of the generated document
 	Span    int   `json:"span,omitempty"`
 	PageNrs []int `json:"page_nrs,omitempty"`
+	Via     string `json:"via,omitempty"`   // split entry point: "" / file | reader | cli (the same code behind api.Split*File, api.Split*, pkg/cli commands)
+	Shape   bool   `json:"shape,omitempty"` // drawn by genShapeLists / genShapeSpans (request possibly outside the documented range)
 	// merge
 	Docs      []DocRef `json:"docs,omitempty"` // merge-append: Docs[0] is the existing destination
 	Divider   bool     `json:"divider,omitempty"`
@@ -213,14 +215,22 @@ func readParts(outDir string) (parts []part, other []string, err error) {
 // expectedSpans: the spans [from, thru] the documentation promises.
 func expectedSpans(c *Case, n int) [][2]int {
 	var out [][2]int
-	if c.Kind == "split-span" {
-		for from := 1; from <= n; from += c.Span {
-			out = append(out, [2]int{from, min(from+c.Span-1, n)})
+	if c.Kind == "split-span" || c.Kind == "split-raw" {
+		for from := 1; from <= n; {
+			thru := n
+			if c.Span < n-from+1 { // no from+span arithmetic: spans up to MaxInt are generated
+				thru = from + c.Span - 1
+			}
+			out = append(out, [2]int{from, thru})
+			from = thru + 1
 		}
 		return out
 	}
 	from := 1
-	for _, nr := range c.PageNrs { // split BEFORE the given page numbers
+	for _, nr := range c.PageNrs { // split BEFORE the given page numbers; a page that does not exist cannot start a part
+		if nr > n {
+			continue
+		}
 		out = append(out, [2]int{from, nr - 1})
 		from = nr
 	}
@@ -252,14 +262,12 @@ func runSplit(c *Case, d *doc, dir string, st stats) (vv []violation) {
 		return []violation{{"harness/write", err.Error()}}
 	}
 	n := len(d.pages)
-	op := map[string]string{"split-span": "op=split/span", "split-pagenr": "op=split/pagenr", "split-bookmarks": "op=split/bookmarks"}[c.Kind]
-	desc := fmt.Sprintf("SplitFile(%d pages, span %d)", n, c.Span)
-	err, panicked := guard(func() error {
-		if c.Kind == "split-pagenr" {
-			desc = fmt.Sprintf("SplitByPageNrFile(%d pages, %v)", n, c.PageNrs)
-			return api.SplitByPageNrFile(in, outDir, c.PageNrs, newConf())
-		}
-		return api.SplitFile(in, outDir, c.Span, newConf())
+	op := map[string]string{"split-span": "op=split/span", "split-pagenr": "op=split/pagenr", "split-bookmarks": "op=split/bookmarks", "split-raw": "op=split/raw"}[c.Kind]
+	desc := splitDesc(c, n)
+	var raw []*api.PageSpan
+	err, panicked := guard(func() (e error) {
+		raw, e = callSplit(c, in, outDir)
+		return e
 	})
 	st["calls/"+c.Kind]++
 	if panicked {
@@ -305,14 +313,58 @@ func runSplit(c *Case, d *doc, dir string, st stats) (vv []violation) {
 		}
 		return vv
 	}
+	// shape: is the request inside what the doc comments promise a result for?
+	shape := "in-range"
+	switch {
+	case c.Kind == "split-pagenr":
+		shape = listShape(c.PageNrs, n)
+	case c.Span < 0:
+		shape = "negative-span"
+	case c.Span > 31:
+		shape = "huge-span"
+	}
+	documented := documentedShape(shape) || shape == "huge-span"
+	if c.Shape {
+		st["shape_calls/"+c.Kind+"/"+shape]++
+	}
 	if err != nil {
+		if !documented && !panicked {
+			// refused: not judged (left-over files are counted only)
+			st["refused/"+c.Kind+"/"+shape]++
+			if ents, _ := os.ReadDir(outDir); len(ents) > 0 {
+				st["refused_but_files_written(not_judged)"]++
+			}
+			return vv
+		}
 		return append(vv, violation{op + "/class=error/" + errClass(err.Error()), desc + " fails: " + err.Error()})
 	}
-	parts, other, perr := readParts(outDir)
+	if c.Shape {
+		st["accepted/"+c.Kind+"/"+shape]++
+	}
+	var parts []part
+	var other []string
+	var perr error
+	if c.Kind == "split-raw" {
+		parts, perr = rawParts(raw) // in the order returned
+	} else {
+		parts, other, perr = readParts(outDir)
+	}
 	if perr != nil {
 		return append(vv, violation{op + "/class=output-unreadable", desc + ": " + perr.Error()})
 	}
+	if !documented && !namesKnown(shape) {
+		// accepted although the doc comments rule the request out: which parts to expect is undefined, but whatever
+		// was written must still tile the original (below)
+		return append(vv, checkTiling(op, desc, d, parts, other, nil, st)...)
+	}
 	want := expectedSpans(c, n)
+	return append(vv, checkTiling(op, desc, d, parts, other, want, st)...)
+}
+
+// checkTiling: the parts (in documented order) are named after the expected spans (when want is given), hold as many
+// pages as their names say, and concatenate to exactly the original page sequence.
+func checkTiling(op, desc string, d *doc, parts []part, other []string, want [][2]int, st stats) (vv []violation) {
+	n := len(d.pages)
 	var wantNames, gotNames []string
 	for _, s := range want {
 		wantNames = append(wantNames, spanName(s))
@@ -323,7 +375,20 @@ func runSplit(c *Case, d *doc, dir string, st stats) (vv []violation) {
 	}
 	gotNames = append(gotNames, other...)
 	sort.Strings(gotNames)
-	if strings.Join(wantNames, " ") != strings.Join(gotNames, " ") {
+	if strings.HasSuffix(op, "/raw") {
+		// SplitRaw: From/Thru of the returned spans, in the order returned
+		wantNames, gotNames = nil, nil
+		for _, s := range want {
+			wantNames = append(wantNames, fmt.Sprintf("%d-%d", s[0], s[1]))
+		}
+		for _, p := range parts {
+			gotNames = append(gotNames, fmt.Sprintf("%d-%d", p.from, p.thru))
+		}
+	}
+	if len(other) > 0 && want == nil {
+		vv = append(vv, violation{op + "/class=file-names", fmt.Sprintf("%s: output directory holds files outside the documented naming scheme: %v", desc, other)})
+	}
+	if want != nil && strings.Join(wantNames, " ") != strings.Join(gotNames, " ") {
 		vv = append(vv, violation{op + "/class=file-names", fmt.Sprintf("%s: expected part files %v, output directory holds %v", desc, wantNames, gotNames)})
 	}
 	var concat []Page
@@ -613,6 +678,7 @@ func main() {
 		var cases []*Case
 		docsPerCount := t.Pick(1, 6)
 		listsPerDoc := t.Pick(4, 12)
+		shapeReps := t.Pick(1, 3)
 		di := 0
 		for rep := 0; rep < docsPerCount; rep++ {
 			for n := 1; n <= 30; n++ {
@@ -624,6 +690,39 @@ func main() {
 					cases = append(cases, &Case{Kind: "split-pagenr", Doc: di, Pages: n, PageNrs: genPageNrs(rng, n)})
 				}
 				cases = append(cases, &Case{Kind: "split-bookmarks", Doc: di, Pages: n, Span: 0})
+				// requests at and beyond the edges of the documented range, rotating through the entry points
+				srng := t.RNGi("shapes", di)
+				v := di
+				// quick: every second shape per document, alternating with the document index (each shape on 15 of the 30
+				// page counts); thorough: all of them, three draws per document
+				keep := func(j int) bool { return !t.Quick() || (j+di)%2 == 0 }
+				for rep2 := 0; rep2 < shapeReps; rep2++ {
+					for j, l := range genShapeLists(srng, n) {
+						if keep(j) {
+							cases = append(cases, &Case{Kind: "split-pagenr", Doc: di, Pages: n, PageNrs: l, Via: vias[v%len(vias)], Shape: true})
+							v++
+						}
+					}
+					for j, sp := range genShapeSpans(srng, n) {
+						if keep(j) {
+							cases = append(cases, &Case{Kind: "split-span", Doc: di, Pages: n, Span: sp, Via: vias[v%len(vias)], Shape: true})
+							v++
+						}
+					}
+					// the in-memory sibling of SplitFile (pageSpans is a copy of writePageSpans)
+					for j, sp := range []int{1 + srng.IntN(31), n, n + 1 + srng.IntN(3), genShapeSpans(srng, n)[2+srng.IntN(2)], -1 - srng.IntN(3)} {
+						if keep(j) {
+							cases = append(cases, &Case{Kind: "split-raw", Doc: di, Pages: n, Span: sp, Shape: true})
+						}
+					}
+					// the ordinary requests through the other entry points
+					if sp := 1 + srng.IntN(31); keep(0) {
+						cases = append(cases, &Case{Kind: "split-span", Doc: di, Pages: n, Span: sp, Via: vias[1+v%2]})
+					}
+					if n >= 2 && keep(1) {
+						cases = append(cases, &Case{Kind: "split-pagenr", Doc: di, Pages: n, PageNrs: genPageNrs(srng, n), Via: vias[1+(v+1)%2]})
+					}
+				}
 				di++
 			}
 		}
@@ -632,11 +731,14 @@ func main() {
 		for i := 0; i < nMerge; i++ {
 			cases = append(cases, genMerge(t.RNGi("merge", i), i, corpusNames))
 		}
-		t.Rule(fmt.Sprintf("split: %d generated documents (every page count 1..30, %d per count; nested page trees, inherited attributes, outlines on every second one) x SplitFile with EVERY span 1..31, x %d random sorted page-number lists (1..5 numbers in 2..n) for SplitByPageNrFile, x SplitFile span 0 (bookmarks) = %d cases. "+
+		t.Rule(fmt.Sprintf("split: %d generated documents (every page count 1..30, %d per count; nested page trees, inherited attributes, outlines on every second one) x SplitFile with EVERY span 1..31, x %d random sorted page-number lists (1..5 numbers in 2..n) for SplitByPageNrFile, x SplitFile span 0 (bookmarks); "+
+			"per document also %d x (quick: every second of) {~25 page-number lists at and beyond the documented range: nil, empty, [n+1], one entry far beyond, [1], [n], one entry, valid entries followed by n+1 / several entries beyond the last page up to MaxInt, entry = page count inside longer lists, entry 1 / 0 / negative first, duplicates (also of an entry beyond), unsorted (also through an entry beyond), random lists over 1..n+4; 4 spans outside 1..31 (negative, MinInt, n+32.. MaxInt); 5 SplitRaw calls (span in 1..31, n, just above n, huge, negative); one ordinary span and list}, "+
+			"rotating through the entry points SplitFile/SplitByPageNrFile, Split/SplitByPageNr (reader) and cli.Dispatch(SplitCommand/SplitByPageNrCommand) = %d split cases. "+
 			"merge: %d cases: 1..5 documents (pdfgen 1..12 pages, 1 in 12 a corpus file of %v, 1 in 12 the previous file again) x {create, append onto an existing destination, append with a missing destination, zip of two} x divider on/off (never for zip) x bookmarks on/off x OptimizeBeforeWriting. "+
-			"A case is non-trivial when the operation produced output that was read back and compared", 30*docsPerCount, docsPerCount, listsPerDoc, nSplit, nMerge, corpusNames))
+			"A case is non-trivial when the operation produced output that was read back and compared", 30*docsPerCount, docsPerCount, listsPerDoc, shapeReps, nSplit, nMerge, corpusNames))
 		t.Assume("part files are named <base>_<from>.pdf / <base>_<from>-<thru>.pdf (spanFileName, usage text); their order is the numeric order of <from>; any other file in the output directory is a violation")
-		t.Assume("SplitByPageNrFile splits BEFORE the given page numbers (doc comment); lists are sorted, unique, within 2..pageCount (numbers beyond the page count are not documented and not generated)")
+		t.Assume("SplitByPageNrFile splits BEFORE the given page numbers (doc comment: sorted, unique, at least 2). A list inside that description with every entry <= pageCount must succeed. Any other list (empty, entry < 2, duplicates, unsorted, first entry beyond the last page - all refused by validateSplitPageNumbers - or later entries beyond the last page - accepted, those entries are ignored) may be refused with an error (counted under refused/, not judged); when the call returns nil the parts must tile the original page sequence whatever the list was, and for sorted unique lists the part files are those of the splits before the listed pages that exist")
+		t.Assume("span < 0 may be refused (ErrInvalidSplitSpan); every span >= 1 including spans far beyond the page count must succeed (one part 1..n); SplitRaw's spans are judged in the order returned by their From/Thru and content")
 		t.Assume("bookmark split (span 0): the property claims the sequence only for span and page-number splits; a bookmark part must be a contiguous run of original pages starting at a page some top-level bookmark targets; a refusal (no usable bookmarks) is counted, not judged")
 		t.Assume("zip merge: 1A 1B 2A 2B ... (MergeXRefTables doc comment), the remaining pages of the longer document follow in order; divider pages are 'not applicable for zipping'")
 		t.Assume("divider: exactly one blank page between consecutive merged documents (append: also between the existing destination and the first input), none after the last; a divider's boxes and rotation are not judged")
@@ -677,7 +779,7 @@ func main() {
 		// one report per key: the smallest case (fewest pages / documents), ties by case order
 		size := func(c *Case) int {
 			if c.Pages > 0 {
-				return c.Pages*100 + c.Span + len(c.PageNrs)
+				return c.Pages*100 + min(max(c.Span, 0), 99) + len(c.PageNrs)
 			}
 			s := 0
 			for _, r := range c.Docs {
